@@ -512,7 +512,8 @@ def _observe_misplaced(rec, db, store, tag, key, case, label):
                 out = ('refused',)
             except Exception as e:
                 rec.case((key, 'misplaced', mname, entry) if key else None, (mname, entry, type(e).__name__), outcome=('misplaced', 'error'))
-                rec.violation(f'C09|variable-outside-trajectory-raised-{type(e).__name__}|{entry}:{mname}',
+                written = 'through-a-catalog' if 'catalog' in mname else 'written-plainly'
+                rec.violation(f'C09|variable-outside-trajectory-raised-{type(e).__name__}|{entry}:{written}',
                               f'{mname} through {entry}: {str(e)[:200]} ' + label, dict(case, formula=mname, entry=entry))
                 rec.retire = True
                 return False
@@ -539,7 +540,8 @@ def _judge_misplaced(rec, store, case, label, varied):
         first_tag, first = obs[0]
         for tag, out in obs[1:]:
             if not _same_outcome(first, out):
-                rec.violation(f'C09|result-depends-on-the-order-of-the-rows-of-an-individual|{entry}:{mname}',
+                written = 'variable-outside-trajectory-through-a-catalog' if 'catalog' in mname else 'variable-outside-trajectory-written-plainly'
+                rec.violation(f'C09|result-depends-on-the-order-of-the-rows-of-an-individual|{entry}:{written}',
                               f'formula {mname} (data variable outside the trajectory operator) through {entry}: table order {first_tag} '
                               f'gives {first}, table order {tag} gives {out} {label}',
                               dict(case, formula=mname, entry=entry, orders=[list(first_tag), list(tag)]),
@@ -597,6 +599,7 @@ def _live_history(task, rec):
                 pdict = {nm: p[nm] for nm in b.free_beta_names}
                 trace = []
                 ids_before = None
+                wrong_at_start = False
                 for step in [None] + list(hist):
                     if step is not None:
                         e = EDITS[step]
@@ -645,6 +648,10 @@ def _live_history(task, rec):
                             rec.violation(f'C09|live-model-not-following-the-table-after-database-edit|{obs}:after={done}',
                                           f'{fname}, history [{hname}], observers {OBSERVER_ORDERS[oi]}: after {done} {obs} gives {got}, '
                                           f'expected {exp} [comp={comp} ids={ids}]', case, expected=exp, observed=got)
+                            wrong_at_start = wrong_at_start or step is None
+                    if wrong_at_start:
+                        # wrong before any edit: not a matter of this part (the permutation part reports it); the edits are not blamed
+                        break
             except Exception as e:
                 rec.case(ckey, ('raised', type(e).__name__, done), outcome=('live', 'raised'))
                 rec.violation(f'C09|live-model-after-database-edit-raised-{type(e).__name__}|after={done}',
